@@ -177,9 +177,73 @@ def sub_names(store):
 # interface contracts GitStore._import_one / _get_etag / Store.get_ctag / delete_one /
 # subdirectories; TreeGitStore, BareGitStore and VdirStore are verified against their own,
 # stronger contracts, whose postconditions contain the interface's clauses over the same ghost
-# fields (defined by views).  That a subclass contract implies the interface contract is NOT
-# checked mechanically: the subclass contracts carry extra preconditions - the representation
-# invariant rep_tree / rep_bare, "name is not a sub-directory", "name is not the metadata file" -
-# that the interface does not state.  It is listed as an assumption in DESIGN 0.12.
-# (`refines("Base.m", ["Sub", ...])` generates Sub.m@iface obligations; with the current interface
-# contracts they are not provable, for the reason above.)
+# fields (defined by views).  `refines("Base.m", ["Sub"], extra_requires=...)` (end of this file)
+# checks the subclass *body* against the interface contract mechanically, under the subclass'
+# representation invariant (rep_tree / rep_bare, "name is not a sub-directory") - which the
+# interface cannot state and generic callers therefore do not establish: that it holds at every
+# call is the residual assumption (DESIGN 0.12): every write re-establishes it (proved,
+# ensures_history), create/open are assumed to.
+
+
+# ---- checked refinements: the subclass body against the *interface* contract, under the
+# subclass' representation invariant (which every write of that subclass re-establishes -
+# ensures_history of the subclass contracts - and create/open are assumed to establish)
+def bare_import_rep(self, name):
+    return rep_bare(self.repo) and name != ".xandikos"
+
+
+def tree_import_rep(self, name):
+    return rep_tree(self.repo) and name != ".xandikos" and name not in fs_subdirs(self.repo.path)
+
+
+refines("xandikos.store.git.GitStore._import_one", ["xandikos.store.git.BareGitStore"],
+        extra_requires="bare_import_rep", modifies=["self.repo"])
+refines("xandikos.store.git.GitStore._import_one", ["xandikos.store.git.TreeGitStore"],
+        extra_requires="tree_import_rep", modifies=["self.repo", "fs()"])
+
+
+def bare_meta_rep(self, name):
+    return rep_bare(self.repo)
+
+
+def tree_meta_rep(self, name):
+    return rep_tree(self.repo) and name not in fs_subdirs(self.repo.path)
+
+
+refines("xandikos.store.git.GitStore._import_one@metadata", ["xandikos.store.git.BareGitStore"],
+        extra_requires="bare_meta_rep", modifies=["self.repo"])
+refines("xandikos.store.git.GitStore._import_one@metadata", ["xandikos.store.git.TreeGitStore"],
+        extra_requires="tree_meta_rep", modifies=["self.repo", "fs()"])
+
+
+def bare_etag_rep(self, name):
+    return rep_bare(self.repo)
+
+
+def tree_etag_rep(self, name):
+    return rep_tree(self.repo)
+
+
+refines("xandikos.store.git.GitStore._get_etag", ["xandikos.store.git.BareGitStore"],
+        extra_requires="bare_etag_rep", modifies=["self.repo"], modifies_on_raise=["self.repo"])
+refines("xandikos.store.git.GitStore._get_etag", ["xandikos.store.git.TreeGitStore"], extra_requires="tree_etag_rep")
+
+
+def bare_delete_rep(self, name, etag):
+    return rep_bare(self.repo) and name != ".xandikos" and (etag is None or is_ascii(etag))
+
+
+def tree_delete_rep(self, name, etag):
+    return rep_tree(self.repo) and name != ".xandikos" and (etag is None or is_ascii(etag))
+
+
+refines("xandikos.store.Store.delete_one", ["xandikos.store.git.BareGitStore"],
+        extra_requires="bare_delete_rep", modifies=["self.repo"], modifies_on_raise=["self.repo"])
+refines("xandikos.store.Store.delete_one", ["xandikos.store.git.TreeGitStore"],
+        extra_requires="tree_delete_rep", modifies=["self.repo", "fs()"])
+
+
+# NOT refined mechanically: Store.get_ctag (the interface names the tag by the uninterpreted
+# tag_hash(ghost_M, ghost_cfg); the subclass contracts prove it is the hash of the index / head tree -
+# that the tree hash is a function of exactly (members, metadata entry) is the residual assumption),
+# GitStore._iterblobs and Store.subdirectories (their subclass bodies are not under contract).
